@@ -128,6 +128,12 @@ def lib(fn, *args, **kwargs):
         return None, LibRaised(e)
 
 
+# the package's convention for its per-module logging switches (read at import time): DISSECT_LOG_<MODULE>=<level>; two modules
+# have one today, the variant sets the name for every module so that a switch added later is on as well
+DEBUG_LOG_ENV = {f"DISSECT_LOG_{m}": "DEBUG" for m in ("VMDK", "VHDX", "VHD", "VDI", "HDD", "HDS", "QCOW2", "HYPERV", "OVF", "PVS", "VBOX", "VMX",
+                                                       "ENVELOPE", "VMTAR", "HYPERVISOR")}
+
+
 def lib_delegating(tag: str, fn, *args, **kwargs):
     """lib() for library entry points that hand the work to a standard-library object they configure (vmtar.open returns a
     tarfile.TarFile): a per-case CPU budget overrun inside the call is charged to the library although no library frame is on
@@ -185,7 +191,7 @@ def also_minimal(out, spec, fh, open_fn, model, requests, tag, limit: int = 4 <<
             return
         check_reads(out, v, model, requests[:1], tag + "-reopen-first")
         del v
-        gc.collect()
+        gc.collect(1)  # young generations: the objects of this case (a full collection costs ~50 ms in a Hypothesis process)
         if h.closed:
             out.fail(f"mutated|{tag}-supplied-handle-closed", "the caller's file object was closed when the reader on it was dropped")
             return
